@@ -1,6 +1,7 @@
 import N0Verif.Proofs.XPathSelect2
 import N0Verif.Proofs.XPathSelect3
 import N0Verif.Proofs.XPathAudit
+import N0Verif.Proofs.XPathListDeep
 /-!
 # C06 — wildcard and predicate steps select exactly the matching elements, in order
 
@@ -1312,6 +1313,107 @@ example : (XPath.get 20 flatRoot ['[', 'k', '=', '2', ']', '/', 'f'] .none) = (f
   exact this
 example : (XPath.first 20 flatRoot ['/', 'f'] .none) = (flatRoot, .ok (.list .n0 [.str ['a'], .str ['b']])) :=
   (C06_star_list_root .n0 flatList ['f'] .none plainKey_f (by decide) 20 (by decide) _ (by simp [slash])).2.2
+
+/-! ## a record list deeper in an n0list-rooted tree (worker `c06deep`)
+
+The root container is an `n0list`, the record list sits at a canonical position `P` below it, so `P` starts with an index
+(`[2]/a/b`, `[0][1]`, `[1]/c[0]`, …; unbounded depth).  `n0list._find` walks the leading index tokens (through nested lists),
+hands the first dict element to `n0dict._find` with `self` = the ROOT list (fix C06-f), and - when `P` consists of indexes
+only - is still the searching side when the record list is reached (its own `[*]` loop; a name or a condition is handed over).
+`xld_walk` (Proofs/XPathListDeep.lean) is the walk; the tree-level lemmas behind `C06_star` / `C06_pred` do the rest. -/
+
+/-- **C06 (fan-out, record list below a list root).**  For an n0list root and the list `rs` of dict records at the canonical
+position `P = [n]…` below it, `P[*]/f` and the shorthand `P/f` - written with or without the leading '/' - return
+`[r[f] for r in rs if f in r]` through `get` (the default when empty), item access (`IndexError` when empty) and `first` (a single
+match unwrapped); the tree is unchanged. -/
+theorem C06_star_list_deep (cls : Cls) (xs : List Val) (n : Nat) (rest : Pos) (f : Str) (lc : Cls) (rs : List Val) (d : Val)
+    (hp : PlainPos rest) (hf : PlainKey f) (hget : getAt (.list cls xs) (.idx n :: rest) = some (.list lc rs))
+    (hrs : ∀ r ∈ rs, isDict r = true) :
+    ∃ N, ∀ fuel ≥ N, ∀ lead ∈ [[], slash],
+      ∀ xp ∈ [lead ++ renderPos (.idx n :: rest) ++ bracket ['*'] ++ slash ++ f, lead ++ renderPos (.idx n :: rest) ++ slash ++ f],
+        XPath.get fuel (.list cls xs) xp d = (.list cls xs, .ok (selected (selectF f rs) d)) ∧
+        getItem fuel (.list cls xs) xp = (.list cls xs, selectedItem (selectF f rs)) ∧
+        first fuel (.list cls xs) xp d = (.list cls xs, .ok (firstOf (selectF f rs) d)) := by
+  refine ⟨2 * (Seg.idx n :: rest).length + rs.length + 6, fun fuel hfuel lead hlead xp hxp => ?_⟩
+  have := xld_star_api cls xs (.idx n :: rest) f lc rs d hp ⟨n, rest, rfl⟩ hf hget hrs fuel hfuel lead hlead xp hxp
+  simp only [selectF_eq] at this
+  exact this
+
+/-- **C06 (predicates, record list below a list root).**  For an n0list root and the list `rs` of dict records at the canonical
+position `P = [n]…` below it, `P[k op v]/f` and `P/k[text() op v]/../f` - any operator and literal spelling, with or without the
+leading '/' - return `f` of exactly the records that have `k` and whose `k` passes the comparison, in list order, through `get`,
+item access and `first`; the tree is unchanged.  (The `'..'` of the rewritten condition splits the `found` text - the canonical
+path of `P[j]/k`, which starts with the index of the root list - and resolves `P[j]` again from the root list.) -/
+theorem C06_pred_list_deep (cls : Cls) (xs : List Val) (n : Nat) (rest : Pos) (k f opx op vq v : Str) (lc : Cls) (rs : List Val)
+    (d : Val) (hp : PlainPos rest) (hk : FieldKey k) (hf : PlainKey f) (hop : OpSpell opx op) (hlit : LitSpell vq v)
+    (hv : PlainLit v) (hget : getAt (.list cls xs) (.idx n :: rest) = some (.list lc rs)) (hrs : ∀ r ∈ rs, isDict r = true)
+    (hg : ComparableK k v rs) :
+    ∃ N, ∀ fuel ≥ N, ∀ lead ∈ [[], slash],
+      ∀ xp ∈ [lead ++ renderPos (.idx n :: rest) ++ bracket (k ++ opx ++ vq) ++ slash ++ f,
+              lead ++ renderPos (.idx n :: rest) ++ slash ++ k ++ bracket (sTextFn ++ opx ++ vq) ++ slash ++ ['.', '.'] ++ slash ++ f],
+        XPath.get fuel (.list cls xs) xp d
+          = (.list cls xs, .ok (selected (selectWhere k f (condTest op (.str v)) rs) d)) ∧
+        getItem fuel (.list cls xs) xp = (.list cls xs, selectedItem (selectWhere k f (condTest op (.str v)) rs)) ∧
+        first fuel (.list cls xs) xp d = (.list cls xs, .ok (firstOf (selectWhere k f (condTest op (.str v)) rs) d)) := by
+  refine ⟨6 * (Seg.idx n :: rest).length + rs.length + 14, fun fuel hfuel lead hlead xp hxp => ?_⟩
+  have := xld_pred_api cls xs (.idx n :: rest) k f opx op vq v lc rs d hp ⟨n, rest, rfl⟩ hk hf hop hlit hv hget hrs hg.guard
+    fuel hfuel lead hlead xp hxp
+  simp only [selectWhere_eq] at this
+  exact this
+
+/-- a list-rooted tree with the flat record list at three positions: `[1]/a/b` (ends in a key: the tokens are `[1]`, `a`,
+`b[*]` / `b[k=2]`), `[1]/c[0]` (an index below a key) and `[2][1]` (indexes only: `n0list._find` reaches the record list itself) -/
+def deepListRoot : Val :=
+  .list .n0 [.str ['p'],
+    .dict .n0 [(['a'], .dict .n0 [(['b'], .list .n0 flatList)]), (['c'], .list .n0 [.list .n0 flatList])],
+    .list .n0 [.str ['z'], .list .n0 flatList]]
+
+/-- the model on the paths evaluated with the real code (`n0dict.convert_recursively(['p', {'a': {'b': R}, 'c': [R]}, ['z', R]])`,
+`R = [{'k':'1','f':'a'},{'k':'2','f':'b'}]`; the implementation returns the same values) -/
+theorem C06_star_list_deep_example :
+    (XPath.getItem 80 deepListRoot ['[', '1', ']', '/', 'a', '/', 'b', '[', '*', ']', '/', 'f']).2
+      = .ok (.list .n0 [.str ['a'], .str ['b']]) ∧
+    (XPath.getItem 80 deepListRoot ['/', '[', '1', ']', '/', 'a', '/', 'b', '/', 'f']).2 = .ok (.list .n0 [.str ['a'], .str ['b']]) ∧
+    (XPath.getItem 80 deepListRoot ['[', '2', ']', '[', '1', ']', '[', '*', ']', '/', 'f']).2
+      = .ok (.list .n0 [.str ['a'], .str ['b']]) ∧
+    (XPath.getItem 80 deepListRoot ['[', '2', ']', '[', '1', ']', '/', 'f']).2 = .ok (.list .n0 [.str ['a'], .str ['b']]) ∧
+    (XPath.getItem 80 deepListRoot ['/', '[', '1', ']', '/', 'c', '[', '0', ']', '/', 'f']).2
+      = .ok (.list .n0 [.str ['a'], .str ['b']]) := by
+  decide +kernel
+theorem C06_pred_list_deep_example :
+    (XPath.getItem 80 deepListRoot ['[', '1', ']', '/', 'a', '/', 'b', '[', 'k', '=', '2', ']', '/', 'f']).2 = .ok (.list .n0 [.str ['b']]) ∧
+    (XPath.first 80 deepListRoot ['[', '1', ']', '/', 'a', '/', 'b', '/', 'k', '[', 't', 'e', 'x', 't', '(', ')', '=', '2', ']', '/', '.', '.', '/', 'f']
+      (.str ['D'])).2 = .ok (.str ['b']) ∧
+    (XPath.getItem 80 deepListRoot ['[', '2', ']', '[', '1', ']', '[', 'k', '=', '2', ']', '/', 'f']).2 = .ok (.list .n0 [.str ['b']]) ∧
+    (XPath.getItem 80 deepListRoot ['/', '[', '2', ']', '[', '1', ']', '/', 'k', '[', 't', 'e', 'x', 't', '(', ')', '=', '2', ']', '/', '.', '.', '/', 'f']).2
+      = .ok (.list .n0 [.str ['b']]) ∧
+    (XPath.getItem 80 deepListRoot ['[', '1', ']', '/', 'c', '[', '0', ']', '[', 'k', '!', '=', '2', ']', '/', 'f']).2
+      = .ok (.list .n0 [.str ['a']]) ∧
+    (XPath.get 80 deepListRoot ['[', '2', ']', '[', '1', ']', '[', 'k', '=', '3', ']', '/', 'f'] (.str ['D'])).2 = .ok (.str ['D']) ∧
+    (XPath.getItem 80 deepListRoot ['[', '2', ']', '[', '1', ']', '[', 'k', '=', '3', ']', '/', 'f']).2 = .error .IndexError := by
+  decide +kernel
+/-- … and through the theorems (non-vacuity): `[2][1][k=2]/f` (indexes only) and `[1]/a/b[*]/f`, `/[1]/a/b/f` (merged last token) -/
+example : ∃ N, ∀ fuel ≥ N,
+    (XPath.get fuel deepListRoot ['[', '2', ']', '[', '1', ']', '[', 'k', '=', '2', ']', '/', 'f'] .none)
+      = (deepListRoot, .ok (.list .n0 [.str ['b']])) := by
+  obtain ⟨N, h⟩ := C06_pred_list_deep .n0 _ 2 [.idx 1] ['k'] ['f'] ['='] _ _ ['2'] .n0 flatList .none trivial fieldKey_k plainKey_f
+    .eq1 (.bare ['2']) ⟨by decide, by decide, by decide⟩ (show getAt deepListRoot [.idx 2, .idx 1] = some (.list .n0 flatList) by decide)
+    (by decide) (by decide)
+  refine ⟨N, fun fuel hfuel => ?_⟩
+  have := (h fuel hfuel [] (by simp) _ (List.mem_cons_self ..)).1
+  rw [show selectWhere ['k'] ['f'] (condTest ['=', '='] (.str ['2'])) flatList = [.str ['b']] by decide] at this
+  exact this
+example : ∃ N, ∀ fuel ≥ N,
+    (XPath.getItem fuel deepListRoot ['[', '1', ']', '/', 'a', '/', 'b', '[', '*', ']', '/', 'f'])
+      = (deepListRoot, .ok (.list .n0 [.str ['a'], .str ['b']])) ∧
+    (XPath.first fuel deepListRoot ['/', '[', '1', ']', '/', 'a', '/', 'b', '/', 'f'] .none)
+      = (deepListRoot, .ok (.list .n0 [.str ['a'], .str ['b']])) := by
+  obtain ⟨N, h⟩ := C06_star_list_deep .n0 _ 1 [.key ['a'], .key ['b']] ['f'] .n0 flatList .none
+    ⟨plainKey_a, ⟨by decide, by decide, by decide⟩, trivial⟩ plainKey_f
+    (show getAt deepListRoot [.idx 1, .key ['a'], .key ['b']] = some (.list .n0 flatList) by decide) (by decide)
+  refine ⟨N, fun fuel hfuel => ⟨?_, ?_⟩⟩
+  · exact (h fuel hfuel [] (by simp) _ (List.mem_cons_self ..)).2.1
+  · exact (h fuel hfuel slash (by simp) _ (List.mem_cons_of_mem _ (List.mem_cons_self ..))).2.2
 
 /-! ## literal values a condition cannot express (finding C06-g, open)
 
